@@ -122,9 +122,15 @@ def obs(fn, *a):
         r = f(*a)
     except BaseException as e:
         return json.dumps(["e", type(e).__name__, list(_hooks)])
-    if isinstance(r, tuple) and len(r) == 2 and isinstance(r[1], bool) and fn.startswith("d"):
-        return json.dumps(["v", repr(_norm(r[0])), r[1], list(_hooks)])
-    return json.dumps(["v", repr(_norm(r)), None, list(_hooks)])
+    # A call that returns a result AND leaves the error indicator set (an exception that the caller's test missed) makes the
+    # exception surface at the next checked C call: provoke that here, so that it is attributed to this call ("late").
+    try:
+        len(_hooks); repr(r)
+        if isinstance(r, tuple) and len(r) == 2 and isinstance(r[1], bool) and fn.startswith("d"):
+            return json.dumps(["v", repr(_norm(r[0])), r[1], list(_hooks)])
+        return json.dumps(["v", repr(_norm(r)), None, list(_hooks)])
+    except BaseException as e:
+        return json.dumps(["late", type(e).__name__, list(_hooks)])
 _RES = None
 def _run_table(table):
     # All calls of the table run, in order, in a forked copy of this driver that streams one result line per call.
@@ -380,6 +386,8 @@ def classify(want, got_raw):
         got = json.loads(got_raw)
     except (TypeError, ValueError):
         return "driver-error"
+    if got[0] == "late":
+        return "exception-left-pending"          # result delivered with the error indicator set; it surfaced after the call
     if got[0] == "e" and want[0] == "v":
         return "exception-instead-of-value"
     if got[0] == "v" and want[0] == "e":
